@@ -108,6 +108,8 @@ def buildOp (toks : List String) : Option (M Val) :=
   | "connect" :: r =>
     some (devConnect (parseNatList ((kv r "keys").getD "")) (getT r "tt") (getT r "at") (getT r "rt") (getFlag r "cb"))
   | "close" :: _ => some devClose
+  -- calling a generator function (streaming_shell) WITHOUT iterating it runs none of its body: the later iteration is the operation
+  | "nop" :: _ => some (pure Val.none)
   | "shell" :: r => some (devShellLike "shell" (ascii "shell") (getHex r "cmd") (getT r "tt") (getT r "rt") (getT r "t") (getFlag r "decode"))
   | "exec_out" :: r => some (devShellLike "exec_out" (ascii "exec") (getHex r "cmd") (getT r "tt") (getT r "rt") (getT r "t") (getFlag r "decode"))
   | "root" :: r => some (devRoot (getT r "tt") (getT r "rt") (getT r "t"))
